@@ -69,7 +69,8 @@ func main() {
 		e := system.Collection(backing[:c.Len:len(backing)])
 		colls := map[string]system.Collection{"e": e}
 		snap := lib.TakeSnapshot([]proto.Message{mr1}, colls)
-		out := lib.EvalOutcome(forest, c.Text, lib.AsResources(mr1), nil, []fhirpath.EvaluateOption{evalopts.EnvVariable("e", e)})
+		out := lib.EvalOutcome(forest, c.Text, lib.AsResources(mr1), nil, []fhirpath.EvaluateOption{evalopts.EnvVariable("e", e),
+			evalopts.EnvVariable("two", system.Collection{system.Integer(1), system.Integer(2)})})
 		rec := map[string]any{"id": c.ID + "/" + fl, "kind": "slice", "src": c.Text, "out": out, "mut": snap.Report(),
 			"cs": map[string]any{"len": c.Len, "spare": c.Spare, "flavour": fl}}
 		if err := w.Write(rec); err != nil {
